@@ -24,7 +24,7 @@ from .c01 import decl_errors
 ID = "C17"
 RULE = ("(program: classes x reference graph x spelling per reference x definition order x future-annotations x local scope, first-use order, inputs); "
         "non-trivial = at least one reference that cannot be resolved when its class is created (target defined later, or self) and is exercised by an "
-        "input; distinct = hash of the case")
+        "input; distinct = hash of the case Besides the programs: exhaustive grids of same-named classes in two modules, subclasses of classes with pending references, declarations local to a function naming a later module-level class, and one reference name shared by several annotations (each case non-trivial: a reference is unresolved at declaration time).")
 ASSUMPTIONS = [
     "reference semantics = the same system written with direct references, unrolled to K=3 levels (inputs are at most 3 levels deep)",
     "documented limitation excluded by construction: a class local to a function referring by string to ANOTHER local class (self-references are supported)",
